@@ -5,6 +5,7 @@ import (
 	"flag"
 	"fmt"
 	"os"
+	"os/exec"
 	"path/filepath"
 	"strings"
 	"sync"
@@ -29,6 +30,8 @@ func main() {
 		os.Exit(cmdCheck(os.Args[2:]))
 	case "survey":
 		os.Exit(cmdSurvey(os.Args[2:]))
+	case "replay":
+		os.Exit(cmdReplay(os.Args[2:]))
 	case "list":
 		w, err := loadWorld()
 		if err != nil {
@@ -449,4 +452,96 @@ func sweepLedger(prop string) map[string]bool {
 		}
 	}
 	return m
+}
+
+// replay: re-run a recorded violation against /repo's current tree.
+//   - a record with a test (a counterexample that was confirmed or tried): the recorded test is compiled together with
+//     the spec file regenerated from the current contracts and run on the real code;
+//   - a stand-in record: the stand-in is executed again;
+//   - a record without a failing input: the named obligation's unit is verified again.
+//
+// Exit 1 + VIOLATION line when the violation is still there, 0 when it is gone, 2 on a machinery error.
+func cmdReplay(args []string) int {
+	fs := flag.NewFlagSet("replay", flag.ExitOnError)
+	prop := fs.String("prop", "", "property id")
+	file := fs.String("file", "", "replay file")
+	fs.Parse(args)
+	b, err := os.ReadFile(*file)
+	if err != nil {
+		fmt.Println("cannot read replay file:", err)
+		return 2
+	}
+	var rec map[string]interface{}
+	if err := json.Unmarshal(b, &rec); err != nil {
+		fmt.Println("bad replay file:", err)
+		return 2
+	}
+	str := func(k string) string { s, _ := rec[k].(string); return s }
+	if sn := str("standin"); sn != "" {
+		fmt.Printf("replay: executing stand-in %s again\n", sn)
+		return cmdCheck([]string{"-prop", *prop, "-tier", "quick"})
+	}
+	ob := str("obligation")
+	if ob == "" {
+		fmt.Println("replay file names no obligation")
+		return 2
+	}
+	unit := ob
+	if i := strings.LastIndex(ob, "/"); i >= 0 {
+		unit = ob[:i]
+	}
+	if test := str("replay_test"); test != "" {
+		w, err := loadWorld()
+		if err != nil {
+			fmt.Fprintln(os.Stderr, err)
+			return 2
+		}
+		var pk *Pkg
+		for _, d := range w.AllDecls {
+			if w.unitName(d) == unit {
+				pk = w.Pkgs[d.Pkg]
+			}
+		}
+		if pk == nil {
+			fmt.Println("unit not found:", unit)
+			return 2
+		}
+		tmp, err := os.MkdirTemp("", "govc-replay-")
+		if err != nil {
+			return 2
+		}
+		defer os.RemoveAll(tmp)
+		specPath := filepath.Join(tmp, "zz_spec_replay.go")
+		testPath := filepath.Join(tmp, "zz_replay_test.go")
+		os.WriteFile(specPath, []byte(w.replaySpecSource(pk)), 0644)
+		os.WriteFile(testPath, []byte(test), 0644)
+		ovb, _ := json.Marshal(map[string]map[string]string{"Replace": {
+			filepath.Join(pk.Dir, "zz_spec_replay_verif.go"): specPath,
+			filepath.Join(pk.Dir, "zz_replay_verif_test.go"): testPath,
+		}})
+		ovPath := filepath.Join(tmp, "overlay.json")
+		os.WriteFile(ovPath, ovb, 0644)
+		cmd := exec.Command("go", "test", "-tags", "verif", "-overlay", ovPath, "-v", "-vet=off", "-count=1", "-timeout", "60s", "-run", "^TestVerifReplay$", "./"+filepath.Base(pk.Dir))
+		cmd.Dir = repoDir
+		cmd.Env = append(os.Environ(), "GOFLAGS=-mod=mod", "GOPROXY=off", "GOSUMDB=off", "GOTOOLCHAIN=local")
+		out, _ := cmd.CombinedOutput()
+		for _, l := range strings.Split(string(out), "\n") {
+			if strings.HasPrefix(l, "REPLAY") {
+				fmt.Println(l)
+			}
+		}
+		if strings.Contains(string(out), "REPLAY-CONFIRMED") {
+			fmt.Printf("VIOLATION property=%s replay=%s\n", *prop, *file)
+			return 1
+		}
+		if strings.Contains(string(out), "REPLAY-NOT-CONFIRMED") {
+			fmt.Println("the recorded input no longer violates the contract on the current tree")
+			return 0
+		}
+		// the recorded test names clause functions of the contract file as it was then; after a contract edit it no
+		// longer compiles: verify the unit again instead (a new counterexample, if any, is replayed by that run)
+		fmt.Println("replay: the recorded test does not build against the current contracts; verifying the unit again")
+	}
+	fmt.Printf("replay: verifying unit %s again\n", unit)
+	return cmdCheck([]string{"-prop", *prop, "-tier", "quick", "-only", unit})
 }
